@@ -4,6 +4,7 @@ import (
 	"fmt"
 	"go/token"
 	"go/types"
+	"math/big"
 	"sort"
 	"strings"
 
@@ -103,6 +104,18 @@ func innerField(t *Term) string {
 	}
 	if t.K == KConst {
 		return "const"
+	}
+	// a flag byte chosen beforehand (b := 0; if x.Banned { b = 1 }; buf[k] = b): a phi of constants
+	if ph, ok := t.Val.(*ssa.Phi); ok && t.K == KPhi {
+		all := len(ph.Edges) > 0
+		for _, e := range ph.Edges {
+			if _, isC := e.(*ssa.Const); !isC {
+				all = false
+			}
+		}
+		if all {
+			return "const"
+		}
 	}
 	return "?"
 }
@@ -205,16 +218,129 @@ func offsetOf(t *Term) string {
 	if t.K != KSlice {
 		return ""
 	}
-	lo := t.A[1]
+	return offsetKey(t.A[1])
+}
+
+// offsetKey renders an offset expression in a canonical linear form: the sum of its constant parts
+// followed by its symbolic parts ("#34", "bin:+(#34,len(x))"), "" for a loop-carried cursor. A cursor
+// that is advanced in straight-line code (pos += 2; pos += len(x)) therefore yields the same offsets
+// as constant expressions (34+len(x)).
+func offsetKey(lo *Term) string {
+	lo = foldCopyCount(lo)
 	if cursorLike(lo) {
 		return "" // running cursor
 	}
-	if len(Symbols(lo)) == 0 {
-		if v, err := EvalInt(lo, Env{}, 64); err == nil {
-			return "#" + v.String()
+	konst := big.NewInt(0)
+	var atoms []string
+	var walk func(t *Term, sign int) bool
+	walk = func(t *Term, sign int) bool {
+		if t.K == KConv && len(t.A) == 1 {
+			if _, _, ok := isIntType(t.Typ); ok || t.Typ == nil {
+				// widening conversions of offsets (int(x)) do not change the value in range
+				return walk(t.A[0], sign)
+			}
+		}
+		if t.K == KBin && t.S == "+" {
+			return walk(t.A[0], sign) && walk(t.A[1], sign)
+		}
+		if t.K == KBin && t.S == "-" && sign > 0 {
+			return walk(t.A[0], 1) && walk(t.A[1], -1)
+		}
+		if t.K == KLen && len(t.A) == 1 {
+			if n, ok := constLen(t.A[0]); ok {
+				if sign > 0 {
+					konst.Add(konst, big.NewInt(int64(n)))
+				} else {
+					konst.Sub(konst, big.NewInt(int64(n)))
+				}
+				return true
+			}
+		}
+		if len(Symbols(t)) == 0 {
+			if v, err := EvalInt(t, Env{}, 64); err == nil {
+				if sign > 0 {
+					konst.Add(konst, v)
+				} else {
+					konst.Sub(konst, v)
+				}
+				return true
+			}
+		}
+		if sign < 0 {
+			return false
+		}
+		atoms = append(atoms, StripVolatile(shortKey(t)))
+		return true
+	}
+	if !walk(lo, 1) {
+		return StripVolatile(shortKey(lo))
+	}
+	sort.Strings(atoms)
+	switch {
+	case len(atoms) == 0:
+		return "#" + konst.String()
+	case konst.Sign() == 0 && len(atoms) == 1:
+		return atoms[0]
+	}
+	out := atoms[len(atoms)-1]
+	for i := len(atoms) - 2; i >= 0; i-- {
+		out = "bin:+(" + atoms[i] + "," + out + ")"
+	}
+	if konst.Sign() != 0 {
+		out = "bin:+(#" + konst.String() + "," + out + ")"
+	}
+	return out
+}
+
+// foldCopyCount replaces n = copy(buf, []byte("literal")) by len("literal"): a cursor that starts
+// after a constant prefix (the destination is large enough whenever the later slices are in range,
+// which BOUND proves separately).
+func foldCopyCount(t *Term) *Term {
+	return t.Subst(func(x *Term) *Term {
+		if x.K == KCall && x.Callee() == "builtin.copy" && len(x.A) == 2 {
+			d, okd := constLen(x.A[0])
+			r, okr := constLen(x.A[1])
+			switch {
+			case okd && okr:
+				if r < d {
+					d = r
+				}
+				return mk(KConst, itoa(d), x.Typ, nil)
+			case okr && x.A[0].K == KMake:
+				// a fresh buffer that later slices (proved in range by BOUND) extend beyond the prefix
+				return mk(KConst, itoa(r), x.Typ, nil)
+			}
+		}
+		return nil
+	})
+}
+
+// constLen: the statically known length of a byte-slice term.
+func constLen(t *Term) (int, bool) {
+	if s := constStringIn(t); s != "" && t.K == KConv {
+		return len(s), true
+	}
+	if t.K == KSlice && len(t.A) == 3 {
+		lo, okl := t.A[1].IsConst()
+		hi, okh := t.A[2].IsConst()
+		if okl && okh && hi != "end" {
+			return atoi(hi) - atoi(lo), true
+		}
+		if okl && okh && hi == "end" && t.A[0].Typ != nil {
+			if n := fixedArrayLen(t.A[0].Typ); n > 0 {
+				return n - atoi(lo), true
+			}
+		}
+		// x[a : a+k]
+		if t.A[2].K == KBin && t.A[2].S == "+" {
+			for i := 0; i < 2; i++ {
+				if k, ok := t.A[2].A[i].IsConst(); ok && t.A[2].A[1-i].Key() == t.A[1].Key() {
+					return atoi(k), true
+				}
+			}
 		}
 	}
-	return StripVolatile(shortKey(lo))
+	return 0, false
 }
 
 // cursorLike: the offset is a loop-carried value (a phi reached through arithmetic only;
@@ -256,6 +382,38 @@ func (p *Program) CodecEvents(fn *ssa.Function) []CodecEvent {
 			switch x := in.(type) {
 			case *ssa.Call:
 				name := CalleeName(&x.Call)
+				// a straight-line helper of the same package that is handed (a slice of) the buffer:
+				// its events belong here, shifted by the offset of the slice it was given
+				if sc := x.Call.StaticCallee(); sc != nil && sc != fn && sc.Pkg == fn.Pkg && p.Transparent(sc) && !p.codecBusy[sc] {
+					for k, a := range x.Call.Args {
+						if k >= len(sc.Params) || !isByteSlice(a.Type()) {
+							continue
+						}
+						if p.codecBusy == nil {
+							p.codecBusy = map[*ssa.Function]bool{}
+						}
+						p.codecBusy[sc] = true
+						sub := p.CodecEvents(sc)
+						delete(p.codecBusy, sc)
+						at := fi.Term(a)
+						var base *Term
+						if at.K == KSlice {
+							base = at.A[1]
+						}
+						for _, e := range sub {
+							e.Instr, e.Pos = x, x.Pos()
+							if base != nil && e.Off != "" {
+								if strings.HasPrefix(e.Off, "#") {
+									e.Off = offsetKey(mk(KBin, "+", nil, nil, base, mk(KConst, e.Off[1:], nil, nil)))
+								} else {
+									e.Off = ""
+								}
+							}
+							out = append(out, e)
+						}
+						break
+					}
+				}
 				if w, order, put, ok := byteOrderOf(name); ok {
 					buf := fi.Term(x.Call.Args[1])
 					if put {
@@ -394,10 +552,7 @@ func (p *Program) CodecEvents(fn *ssa.Function) []CodecEvent {
 					if bt, ok := x.Val.Type().Underlying().(*types.Basic); ok && bt.Kind() == types.Uint8 {
 						if _, isSlice := ia.X.Type().Underlying().(*types.Slice); isSlice {
 							idx := fi.Term(ia.Index)
-							off := ""
-							if !cursorLike(idx) {
-								off = StripVolatile(shortKey(idx))
-							}
+							off := offsetKey(idx)
 							out = append(out, CodecEvent{Op: "W", Width: 1, Field: "byte:" + innerField(fi.Term(x.Val)), Off: off, Pos: x.Pos(), Instr: x})
 						}
 					}
@@ -409,10 +564,7 @@ func (p *Program) CodecEvents(fn *ssa.Function) []CodecEvent {
 						if bt, ok := x.Type().Underlying().(*types.Basic); ok && bt.Kind() == types.Uint8 {
 							if _, isSlice := ia.X.Type().Underlying().(*types.Slice); isSlice {
 								idx := fi.Term(ia.Index)
-								off := ""
-								if !cursorLike(idx) {
-									off = StripVolatile(shortKey(idx))
-								}
+								off := offsetKey(idx)
 								out = append(out, CodecEvent{Op: "R", Width: 1, Field: "byte:" + destField(fi, x, 0), Off: off, Pos: x.Pos(), Instr: x})
 							}
 						}
@@ -479,4 +631,13 @@ func EventSigs(evs []CodecEvent) []string {
 		out = append(out, e.String())
 	}
 	return out
+}
+
+func isByteSlice(t types.Type) bool {
+	sl, ok := t.Underlying().(*types.Slice)
+	if !ok {
+		return false
+	}
+	b, ok := sl.Elem().Underlying().(*types.Basic)
+	return ok && b.Kind() == types.Uint8
 }
